@@ -40,6 +40,11 @@ def handle (j : Json) : Json :=
     match (do pure ((← dCtx (fld j "ctx")), (← dTerm (fld j "term"))) : D (Ctx × Pypika.Term)) with
     | .ok (c, t) => respondDoc j (render c t)
     | .error e => Json.mkObj [("bad", Json.str e)]
+  | .ok "replace" =>
+    -- the model of `x.replace_table(a, b)` (policy `Pol.code`), rendered
+    match (do pure ((← dCtx (fld j "ctx")), (← dTerm (fld j "term")), (← dTRef (fld j "a")), (← dTRef (fld j "b"))) : D (Ctx × Pypika.Term × TRef × TRef)) with
+    | .ok (c, t, a, b) => respondDoc j (render c (replaceT a b t))
+    | .error e => Json.mkObj [("bad", Json.str e)]
   | .ok "renderSrc" =>
     match (do pure ((← dCtx (fld j "ctx")), (← dSrc (fld j "src"))) : D (Ctx × Src)) with
     | .ok (c, s) => respondDoc j (renderSrc c s)
